@@ -115,6 +115,8 @@ def explicit(B, G, n, strings, custom=False, do_rho=True):
             states = C.rows_tensor(B, batch)
             ip = B.scalars(U_.rotate_psi_inner_prod(st, basis, states, psi=psi, **kw))
             G.fact("inner_prod_shape[%s][b%d]" % (bs, bi), ip.shape == (2, len(batch)), ip.shape)
+            if ip.shape != (2, len(batch)):
+                continue  # (a wrongly shaped result is the violation; never index past it)
             for k, row in enumerate(batch):
                 idx = int("".join(map(str, row)), 2)
                 G.eq("inner_prod[%s][b%d][%d].re" % (bs, bi, k), ip[0, k], O.re(ref[idx]))
@@ -143,6 +145,8 @@ def explicit(B, G, n, strings, custom=False, do_rho=True):
             states = C.rows_tensor(B, batch)
             pp = B.scalars(U_.rotate_rho_probs(st, basis, states, rho=rho, **kw))
             G.fact("rho_probs_shape[%s][b%d]" % (bs, bi), pp.shape == (len(batch),), pp.shape)
+            if pp.shape != (len(batch),):
+                continue
             for k, row in enumerate(batch):
                 idx = int("".join(map(str, row)), 2)
                 G.eq("rho_probs[%s][b%d][%d]" % (bs, bi, k), pp[k], O.re(full[idx][idx]),
